@@ -54,7 +54,13 @@ def inventory(tree):
         its = [ast.unparse(st.iter) for st in ast.walk(fn) if isinstance(st, ast.For) and _literal_iter(st) is not None]
         if its:
             loops[q] = its
-    return {"functions": sorted(set(funcs)), "globals": sorted(set(globs)), "literal_loops": loops}
+    params = {}
+    for q, fn in _iter_funcs(tree):
+        nm = q.split(".")[-1]
+        if nm.startswith("_") and not nm.startswith("__"):
+            a = fn.args
+            params.setdefault(q, [x.arg for x in a.posonlyargs + a.args])
+    return {"functions": sorted(set(funcs)), "globals": sorted(set(globs)), "literal_loops": loops, "private_params": params}
 
 
 def _iter_funcs(tree, prefix=""):
@@ -72,6 +78,7 @@ def _iter_funcs(tree, prefix=""):
 # helpers
 
 
+_PURE_DOTTED = {"np.iinfo", "np.finfo", "np.dtype", "numpy.iinfo", "numpy.finfo", "numpy.dtype"}
 _PURE_BUILTINS = {"slice", "len", "range", "tuple", "frozenset", "int", "float", "str", "bool", "min", "max", "abs"}
 
 
@@ -248,7 +255,10 @@ def _unrollable(st):
 def unroll_new_literal_loops(tree, ref_loops):
     n = 0
     for q, fn in _iter_funcs(tree):
-        known = list(ref_loops.get(q, []))
+        def _key(t):
+            return t.strip("[]()")      # a list and a tuple with the same items are the same table
+
+        known = [_key(t) for t in ref_loops.get(q, [])]
 
         def rewrite(block):
             nonlocal n
@@ -262,7 +272,7 @@ def unroll_new_literal_loops(tree, ref_loops):
                         h.body = rewrite(h.body)
                 if isinstance(st, ast.For):
                     subs = _literal_iter(st)
-                    txt = ast.unparse(st.iter)
+                    txt = _key(ast.unparse(st.iter))
                     if subs is not None and txt in known:
                         known.remove(txt)      # a loop the rules know: keep it as it is
                     elif subs is not None and _unrollable(st):
@@ -618,7 +628,8 @@ def inline_new_temps(tree, ref_mod):
                 n_uses = 0
             # soundness of moving the expression to its uses
             has_call = any(isinstance(x, ast.Await) or (isinstance(x, ast.Call) and not (
-                isinstance(x.func, ast.Name) and x.func.id in _PURE_BUILTINS)) for x in ast.walk(asg.value))
+                (isinstance(x.func, ast.Name) and x.func.id in _PURE_BUILTINS) or ast.unparse(x.func) in _PURE_DOTTED))
+                for x in ast.walk(asg.value))
             has_deref = any(isinstance(x, (ast.Subscript, ast.Attribute, ast.Starred)) for x in ast.walk(asg.value))
             use_stmts = [k for k, st in enumerate(region) if any(isinstance(x, ast.Name) and x.id == nm and isinstance(x.ctx, ast.Load)
                                                                   for x in ast.walk(st))]
@@ -723,11 +734,50 @@ def _as_load(t):
     return t
 
 
+def recover_private_params(tree, ref_params):
+    """a private function (leading underscore) may rename its positional parameters freely: map them back by position.
+    Keyword calls of the function inside the module are renamed with it."""
+    n = 0
+    renamed = {}
+    seen = set()
+    for q, fn in _iter_funcs(tree):
+        if q in seen or q not in ref_params:
+            continue
+        seen.add(q)
+        a = fn.args
+        cur = [x for x in a.posonlyargs + a.args]
+        ref = ref_params[q]
+        if len(cur) != len(ref) or [x.arg for x in cur] == ref:
+            continue
+        mapping = {x.arg: r for x, r in zip(cur, ref) if x.arg != r}
+        taken = {x.id for x in ast.walk(fn) if isinstance(x, ast.Name)} | {x.arg for x in cur}
+        if any(r in taken and r not in mapping for r in mapping.values()):
+            continue      # the reference name is used for something else now
+        for x in cur:
+            if x.arg in mapping:
+                x.arg = mapping[x.arg]
+        for x in ast.walk(fn):
+            if isinstance(x, ast.Name) and x.id in mapping:
+                x.id = mapping[x.id]
+        renamed[q.split(".")[-1]] = mapping
+        n += 1
+    if renamed:
+        for c in ast.walk(tree):
+            if isinstance(c, ast.Call):
+                fname = c.func.id if isinstance(c.func, ast.Name) else (c.func.attr if isinstance(c.func, ast.Attribute) else None)
+                if fname in renamed:
+                    for k in c.keywords:
+                        if k.arg in renamed[fname]:
+                            k.arg = renamed[fname][k.arg]
+    return n
+
+
 def normalise(rel, tree, inv):
     """apply all undo-passes; `inv` is the reference inventory of the module (or None: nothing is new)"""
     if not inv:
         return {}
     done = {}
+    done["private-params"] = recover_private_params(tree, inv.get("private_params", {}))
     done["constants"] = propagate_new_constants(tree, set(inv.get("globals", [])))
     done["helpers"] = inline_new_helpers(tree, set(inv.get("functions", [])))
     done["loops"] = unroll_new_literal_loops(tree, inv.get("literal_loops", {}))
